@@ -13,15 +13,44 @@ from .common import WORK, ToolError, log
 from .session import Session, run_program
 
 
+def _run_batch_in_ns(args):
+    """the whole batch - session, co-processes, validation - inside a private user + mount
+    namespace (opts["twofs"]): the session may then mount file systems of its own (a fresh tmpfs
+    for the cache, another one for the destinations)"""
+    import subprocess
+    import sys
+    bid, programs, workdir, opts = args
+    os.makedirs(workdir, exist_ok=True)
+    af = os.path.join(workdir, "ns-args-%d.json" % bid)
+    rf = os.path.join(workdir, "ns-result-%d.json" % bid)
+    with open(af, "w") as f:
+        json.dump([bid, programs, workdir, dict(opts, _inside_ns=True)], f)
+    code = ("import json,sys; sys.path.insert(0, %r); from vf import runner as R; a=json.load(open(%r)); "
+            "o=R._run_batch(tuple(a)); o['cases']=[list(c) for c in o.get('cases', [])]; "
+            "json.dump(o, open(%r,'w'), default=str)") % (os.path.dirname(os.path.dirname(os.path.abspath(__file__))), af, rf)
+    r = subprocess.run(["unshare", "-Urm", sys.executable, "-c", code], capture_output=True, text=True)
+    if r.returncode != 0 or not os.path.exists(rf):
+        return {"bid": bid, "programs": len(programs), "divs": [], "error": "namespace batch failed: " + (r.stderr or r.stdout)[-1500:]}
+    with open(rf) as f:
+        out = json.load(f)
+    os.unlink(af)
+    os.unlink(rf)
+    return out
+
+
 def _run_batch(args):
     bid, programs, workdir, opts = args
+    if opts.get("twofs") and not opts.get("_inside_ns"):
+        return _run_batch_in_ns(args)
     t0 = time.time()
     bdir = os.path.join(workdir, "b%d" % bid)
     shutil.rmtree(bdir, ignore_errors=True)
     os.makedirs(bdir)
     sess = Session(bdir, reflink=opts.get("reflink", False), exact=opts.get("exact", False),
                    total=opts.get("total", False), layout=opts.get("layout", False),
-                   relcache=opts.get("relcache", False) and (bid % 2 == 1), fullfs=opts.get("fullfs", 0))
+                   relcache=opts.get("relcache", False) and (bid % 2 == 1), fullfs=opts.get("fullfs", 0),
+                   oddroot=opts.get("oddroot", False) and (bid % 3 == 0),
+                   twofs=bool(opts.get("twofs") and opts.get("_inside_ns")))
     out = {"bid": bid, "programs": len(programs), "divs": [], "error": None}
     try:
         results, finals = [], []
